@@ -71,7 +71,9 @@ theorem full_history_total (fixRoot : Bool) (ops : List (Op2 K)) :
           obtain ⟨r, e⟩ := refit_total2 w.q h a w.cur m
           exact ⟨⟨r.1, w.cur⟩, by simp only [step2, step, e, Option.map_some], h.of_topoEq (topoEq_refit w.q w.cur m r e),
             dataOk_refit w.q w.cur m r hd e, aux2_refit w.q w.cur m r a e,
-            fun _ => refitLoop_dirty_nil w.cur m _ _ _ _ _ e⟩
+            fun _ => by
+              obtain ⟨r0, h0, rfl⟩ := refit_eq w.q w.cur m r e
+              simpa using refitLoop_dirty_nil w.cur m _ _ _ _ _ h0⟩
       | rebalance m =>
         have hdn : w.q.dirtyNodes = [] := hs (hwp.1 rfl)
         obtain ⟨q', e, out⟩ := rebalance_spec w.q m h hd hsm.1.2 (fun x hx => by
